@@ -130,11 +130,11 @@ LibLaws(v) ==
   /\ Dec(e) = [ok |-> TRUE, v |-> Norm(v)]                  \* well-formed JSON that reads back equal; tojson|fromjson
   /\ Norm(Norm(v)) = Norm(v)                                \* what was read back reads back unchanged
   /\ Dec(Enc(Norm(v))) = [ok |-> TRUE, v |-> Norm(v)]       \* ... also through a second tojson|fromjson
-  /\ (~HasCollision(v) /\ ValidUtf8(e) /\ Squeeze(e) = e => TRUE)
+  /\ (~HasCollision(v) => Squeeze(e) = e /\ SameValue(Dec(Enc(Norm(v))).v, Dec(e).v))
   /\ (ValidUtf8(e) /\ v.t = "str" /\ ValidUtf8(v.b) => Norm(v) = v)     \* valid strings are preserved exactly
   /\ (IsNumberV(v) /\ ~(v.t = "flt" /\ v.k = "nan") =>
         DecimalOf(e) = NumberValue(v))                      \* a number reads back as the same number
-  /\ ToStr(v) = (IF v.t = "str" THEN v ELSE VStr(e))
+  /\ FuncToString(v) = (IF v.t = "str" THEN v ELSE VStr(e))
   /\ (InTextModel(v) => LET t == T!JsonText(ToText(v)) IN t.ok /\ BytesOf(t.s) = e)     \* Text.tla agrees
 
 CliLaws(v, c) ==
